@@ -35,6 +35,8 @@ pub struct Family {
     /// many times, without the pick hook (fault/sequence enumeration only:
     /// the thread schedule is whatever the OS produces).
     pub uncontrolled: Option<(usize, usize)>,
+    /// Seconds part of the simulation start time for this family.
+    pub base_secs: i64,
 }
 
 impl Family {
@@ -49,7 +51,13 @@ impl Family {
             extra: None,
             hang_is_violation: false,
             uncontrolled: None,
+            base_secs: 1000,
         }
+    }
+    /// Start the simulations of this family at `secs` s + 999_999_998 ns.
+    pub fn epoch(mut self, secs: i64) -> Self {
+        self.base_secs = secs;
+        self
     }
     pub fn hang_violation(mut self) -> Self {
         self.hang_is_violation = true;
@@ -177,6 +185,7 @@ pub fn run_families(property: &str, tier: &str, fams: Vec<Family>, budget_s: f64
         let tf = Instant::now();
         // Each family gets an equal share of what is left of the budget.
         let remaining = (budget_s - t0.elapsed().as_secs_f64()).max(1.0);
+        set_base_secs(fam.base_secs);
         let fam_budget = remaining / (n_fams - fi) as f64;
         let next = AtomicUsize::new(0);
         let stop = AtomicBool::new(false);
